@@ -7,6 +7,7 @@ replaces one before the observed run) is printed as a term of the exact-rational
 Coq evaluates   units (cal r) (DAY * d) * K = tab[d]   for every day of the window and the 2 x 7 pattern days
 (`check_captie`, meaning proved in CapTieProofs.v / Props_C03.v `C03_captie_meaning`).  A difference is a broken tie
 between the two halves of the scheduler verification (`ctx.mismatch`), not a failing input of C03."""
+import json
 import time
 from fractions import Fraction
 
@@ -89,7 +90,12 @@ def calendars_in_force(case, out):
     for r in case['resources']:
         cals[r['name']] = r['cal']                 # Resource objects are keyed by name, the last one wins
     for name, cal in case.get('edit_calendars') or []:
-        if name in cals:
+        inpl = {json.dumps(n): m for n, m in (out.get('edited_in_place') or [])}
+        if json.dumps(name) in inpl:
+            # edited in place: the resource's calendar is `cal - DirectCalendar({})` whose dated operand got set_units
+            # between the two calculations
+            cals[name] = ['binc', 'sub', cals[name], ['datedset', [], inpl[json.dumps(name)]]]
+        elif name in cals:
             cals[name] = cal                       # resource.calendar = ... between the two calculations
     res = []
     for i in range(n):
